@@ -15,7 +15,7 @@ CHECKS = {
  "C02": C("property-based differential testing of the text parser against an independent reference parser (RFC 8259 + the named relaxations) over spelled documents, single-token corruptions, token soups and raw bytes (proptest); thorough tier adds a coverage-guided libFuzzer campaign (cargo-fuzz target c02_text) with the same oracle",
           "Spelled documents carry their meaning by construction; corrupted and arbitrary inputs are judged accept-iff-reference-accepts with equal values, never a panic.",
           "Trusts harness/src/textref.rs as the documented language and Rust std's f64 parser as correctly rounded.", "5 C02"),
- "C03": C("property-based round-trip / two independent strict acceptors (reference parser, serde_json) on both renderings; metamorphic pretty-vs-compact relation; code-point sweep (proptest)",
+ "C03": C("property-based round-trip / two independent strict acceptors (reference parser, serde_json) on both renderings; metamorphic pretty-vs-compact relation; enumerated code-point sweep and multi-byte-character offset sweep (proptest)",
           "Both renderings of generated finite documents are parsed by two independent strict parsers, compared with the original, re-parsed by the library and re-encoded; pretty is compared with compact modulo whitespace and its indentation checked.",
           "Trusts textref.rs strict mode and serde_json as RFC 8259 acceptors.", "5 C03"),
  "C04": C("property-based testing of compare against a model comparator over derived triples, all text/binary pairings, plus order laws on the library's own answers (proptest)",
@@ -24,7 +24,7 @@ CHECKS = {
  "C05": C("property-based differential testing of every byte-level accessor against ten-line tree functions, with arguments drawn from the document (proptest)",
           "Each accessor on enc(tree) is compared with a tree function; every returned sub-value with enc(sub-tree).",
           "Trusts treefn.rs as the meaning of each accessor.", "5 C05"),
- "C06": C("property-based differential testing of every editor against tree edits, including documented errors and buffer-unchanged-on-error (proptest)",
+ "C06": C("property-based differential testing of every editor against tree edits, including documented errors, buffer-unchanged-on-error and the same edit appended to a pre-filled buffer (proptest)",
           "Each editor's appended bytes are compared with enc(tree edit) and its Result with the documented error.",
           "Trusts treefn.rs as the meaning of each edit.", "5 C06"),
  "C07": C("stateful model-based property testing: generated operation sequences interpreted against the library and a tree model, invariant after every step (proptest, vec(op)+interpreter)",
@@ -36,7 +36,7 @@ CHECKS = {
  "C09": C("grammar-based property testing of the JSONPath parser: abstract paths printed in every spelling variant must parse to the intended AST; print/parse round trip; must-reject inputs by construction; token soups and raw bytes for panic-freedom (proptest); thorough tier adds a coverage-guided libFuzzer campaign (cargo-fuzz target c09_path) with the same oracle",
           "Generated ASTs are rendered with random legal spacing/case/quoting and compared structurally (exact number classification) with the parse; invalid-by-construction inputs must be rejected.",
           "Trusts the printer in pathmodel.rs to emit only documented forms.", "5 C09"),
- "C10": C("fault-injection fuzzing of valid encodings (fault sequences, all truncations and all single-bit flips of each generated encoding) and raw bytes with a UTF-8 / no-panic / prefix-rejection oracle; differential text fallback (proptest + enumeration); thorough tier adds a coverage-guided libFuzzer campaign (cargo-fuzz target c10_bytes) with the same oracle",
+ "C10": C("fault-injection fuzzing of valid encodings (fault sequences, all truncations and all single-bit flips of each generated encoding) and raw bytes with a UTF-8 / no-panic / prefix-rejection oracle; differential text fallback incl. enumerated JSON texts shaped like a scalar encoding (proptest + enumeration); thorough tier adds a coverage-guided libFuzzer campaign (cargo-fuzz target c10_bytes) with the same oracle",
           "Valid encodings are corrupted by generated fault sequences; for each small encoding every truncation offset and every single-bit flip is enumerated; JSON texts must fall back to the text parser's value.",
           "Allocation driven by corrupted counts is not judged.", "5 C10"),
  "C11": C("metamorphic property testing: every document-taking function called with all 2^k text/binary assignments and compared with the all-binary call (proptest)",
